@@ -69,12 +69,26 @@ class WModel:
     def producer(self):
         return {o: t.name for t in self.targets.values() for o in t.outputs}
 
+    def deps_map(self):
+        """name -> sorted direct dependencies; cached until invalidate() (World.write_workflow calls it
+        after every change of the target set)."""
+        key = (id(self.targets), len(self.targets))
+        c = getattr(self, "_deps_cache", None)
+        if c is None or c[0] != key:
+            prod = self.producer()
+            c = (key, {n: sorted({prod[i] for i in t.inputs if i in prod}) for n, t in self.targets.items()})
+            self._deps_cache = c
+        return c[1]
+
+    def invalidate(self):
+        self._deps_cache = None
+
     def deps(self, name):
-        prod = self.producer()
-        return sorted({prod[i] for i in self.targets[name].inputs if i in prod})
+        return list(self.deps_map()[name])
 
     def dependents(self, name):
-        return sorted(n for n in self.targets if name in self.deps(n))
+        dm = self.deps_map()
+        return sorted(n for n in self.targets if name in dm[n])
 
     def endpoints(self):
         used = set()
@@ -113,11 +127,12 @@ class WModel:
 
     def downstream(self, names):
         out = set(names)
+        dm = self.deps_map()
         changed = True
         while changed:
             changed = False
             for n in self.targets:
-                if n not in out and any(d in out for d in self.deps(n)):
+                if n not in out and any(d in out for d in dm[n]):
                     out.add(n)
                     changed = True
         return out
@@ -229,7 +244,7 @@ def render(model: WModel, proj: str) -> str:
 
 # ---- generation ------------------------------------------------------------------------------
 def gen_model(rng, n_targets, option_pool=None, p_no_outputs=0.1, subdir=False, protect=False, templates=True,
-              exotic_shapes=True):
+              exotic_shapes=True, chainy=0.0):
     m = WModel()
     n_src = rng.pick([1, 2, 2, 3, 4])
     for i in range(n_src):
@@ -237,13 +252,14 @@ def gen_model(rng, n_targets, option_pool=None, p_no_outputs=0.1, subdir=False, 
         m.sources.append((("d/" if subdir and rng.chance(0.3) else "") + f"{stem}{i}.txt"))
     produced = []
     for i in range(n_targets):
-        t = new_target(m, rng, produced, option_pool, p_no_outputs, subdir, protect, templates, exotic_shapes)
+        t = new_target(m, rng, produced, option_pool, p_no_outputs, subdir, protect, templates, exotic_shapes,
+                       chainy=chainy)
         produced.extend(t.outputs)
     return m
 
 
 def new_target(m, rng, produced=None, option_pool=None, p_no_outputs=0.1, subdir=False, protect=False,
-               templates=True, exotic_shapes=True):
+               templates=True, exotic_shapes=True, chainy=0.0):
     if produced is None:
         produced = [o for t in m.targets.values() for o in t.outputs]
     name = rng.pick(["T", "T", "Al", "Zed", "m.x", "_q"]) + str(m.counter)
@@ -254,6 +270,12 @@ def new_target(m, rng, produced=None, option_pool=None, p_no_outputs=0.1, subdir
         t.outputs.append((("d/" if subdir and rng.chance(0.3) else "") + f"f{m.counter}_{j}.out"))
     pool = list(m.sources) + list(produced)
     n_in = rng.pick([0, 1, 1, 2, 2, 3])
+    if chainy and produced:
+        # long chains: mostly the file made just before, now and then a file from anywhere earlier (a diamond
+        # whose two arms are far apart)
+        n_in = 1 if rng.chance(0.12) else 0
+        if rng.chance(chainy):
+            t.inputs.append(produced[-1])
     for _ in range(n_in):
         p = rng.pick(pool)
         if p not in t.inputs:
@@ -282,5 +304,12 @@ def new_target(m, rng, produced=None, option_pool=None, p_no_outputs=0.1, subdir
             if rng.chance(0.5):
                 t.protect.append((p, rng.pick(["plain", "plain", "dot", "dotdot", "abs", "abs_dot"])))
         t.protect_late = rng.chance(0.25)
+    if protect and pool and rng.chance(0.3):
+        # protect entries that name files of OTHER targets or sources: legal, and without any effect on what
+        # `gwf clean` may remove (a target protects only its own outputs)
+        for _ in range(rng.pick([1, 1, 2])):
+            p = rng.pick(pool)
+            if p not in [q for q, s_ in t.protect]:
+                t.protect.append((p, rng.pick(["plain", "plain", "dot", "abs"])))
     m.targets[name] = t
     return t
